@@ -3,7 +3,7 @@
     proofs in Issuance/*.v.  Each theorem is followed by [Print Assumptions]. *)
 From Coq Require Import List Bool Arith Lia.
 From CM Require Import Issuance.Model Issuance.Proofs Issuance.Invariants Issuance.OwnFault
-  Issuance.NoReissueTL Issuance.NoReissue Issuance.AgreeTL Issuance.Agree Issuance.Refuted.
+  Issuance.NoReissueTL Issuance.NoReissue Issuance.AgreeTL Issuance.Agree Issuance.Refuted Issuance.Check Issuance.SpecLink.
 Import ListNotations.
 
 (** invariant behind F1: a request inside the locked region (re-check ... deferred release) owns
@@ -22,6 +22,13 @@ Theorem C01_issue_spans_disjoint_partial : forall cs st s t1 t2 th1 th2,
   in_span th1 = true -> in_span th2 = true -> c_idn (cfg th1) = c_idn (cfg th2) -> t1 = t2.
 Proof. exact issue_spans_disjoint. Qed.
 Print Assumptions C01_issue_spans_disjoint_partial.
+
+(** the same statement in the form the check evaluates on the implementation's trace: the span
+    monitor S1 of Issuance/Check.v accepts every trace of the model *)
+Theorem C01_model_traces_pass_span_monitor : forall cs st es s,
+  agree_on_lock cs -> runs any_label (init_state cs st) es s -> spans_ok_ev [] es = true.
+Proof. exact model_spans_ok. Qed.
+Print Assumptions C01_model_traces_pass_span_monitor.
 
 (** R: without the hypothesis the statement is false of the faithful model: Unicode and
     punycode spellings of one name take different locks *)
